@@ -606,10 +606,10 @@ type c03Ctx struct {
 	res      *Result
 	suspects []c03Case // cases whose child did not answer in time: re-run alone at the end
 	mu       sync.Mutex
-	lines   []string // model lines
-	impl    []string
-	hangs28 int
-	cfg     string
+	lines    []string // model lines
+	impl     []string
+	hangs28  int
+	cfg      string
 }
 
 // judge compares cached with uncached (oracle) and queues the model line (rd = 1).
